@@ -33,12 +33,23 @@ type FibNextHopEntry struct {
 	Cost    uint64
 }
 
+// FibNextHopsUpdate is the complete new set of nexthops of one prefix
+// (an empty set removes the prefix's nexthops).
+type FibNextHopsUpdate struct {
+	Name     enc.Name
+	Nexthops []FibNextHopEntry
+}
+
 // FibStrategy represents the functionality that a FIB-strategy table should implement.
 type FibStrategy interface {
 	FindNextHopsEnc(name enc.Name) []*FibNextHopEntry
 	FindStrategyEnc(name enc.Name) enc.Name
 	InsertNextHopEnc(name enc.Name, nextHop uint64, cost uint64)
 	ClearNextHopsEnc(name enc.Name)
+	// ReplaceNextHopsEnc replaces the nexthop sets of the given prefixes, in
+	// order, as one atomic step: a concurrent lookup sees either none or all
+	// of the replacements, never a cleared or partially rebuilt set.
+	ReplaceNextHopsEnc(updates []FibNextHopsUpdate)
 	RemoveNextHopEnc(name enc.Name, nextHop uint64)
 	GetAllFIBEntries() []FibStrategyEntry
 	SetStrategyEnc(name enc.Name, strategy enc.Name)
